@@ -1,7 +1,7 @@
 (* DictProofs.v — the exact queries of the three dictionary back-ends: the word map is a finite map
    keyed by id, FstDictionary answers like the MutableDictionary it was built from, a merged
    dictionary is the first-wins union of its children. *)
-Require Import Base DictModel Fuzzy ListLemmas.
+Require Import Base Tables_normalize DictModel Fuzzy ListLemmas.
 From Coq Require Import Lia Permutation Sorting.Sorted.
 
 Lemma text_eqb_eq a b : text_eqb a b = true <-> a = b.
@@ -715,3 +715,43 @@ Lemma merged_hash_order_independent hash_one :
   (forall ws ws', Permutation ws ws' -> hash_words hash_one ws = hash_words hash_one ws') /\
   (forall cs cs', Forall2 (@Permutation text) cs cs' -> merged_eqb hash_one cs cs' = true).
 Proof. split; [apply hash_words_perm|apply merged_eqb_perm]. Qed.
+
+(* ------------------------------------------------------------------------------------------ *)
+(** * contains_exact_word (fix ebb53b3): every word of a dictionary is an exact word of that dictionary,
+      also when it is stored with typographic apostrophes *)
+Lemma table_lookup_spec tbl c : table_lookup tbl c = c \/ In (c, table_lookup tbl c) tbl.
+Proof.
+  induction tbl as [|[k v] tbl IH]; cbn [table_lookup In]; [now left|].
+  destruct (N.eqb_spec c k) as [->|Hne]; [right; now left|].
+  destruct IH as [IH|IH]; [now left|right; now right].
+Qed.
+
+(* the generated table maps nothing onto one of its own keys (re-checked whenever the table is regenerated) *)
+Lemma normalize_table_closed :
+  forallb (fun kv => N.eqb (table_lookup normalize_table (snd kv)) (snd kv)) normalize_table = true.
+Proof. vm_compute. reflexivity. Qed.
+
+Lemma norm_char_idem c : norm_char (norm_char c) = norm_char c.
+Proof.
+  unfold norm_char. destruct (table_lookup_spec normalize_table c) as [E|Hin]; [now rewrite !E|].
+  pose proof normalize_table_closed as H. rewrite forallb_forall in H. specialize (H _ Hin).
+  cbn [snd] in H. now apply N.eqb_eq in H.
+Qed.
+
+Lemma normalized_map w : normalized w = map norm_char w.
+Proof.
+  unfold normalized. destruct (existsb (fun c => negb (N.eqb (norm_char c) c)) w) eqn:E; [reflexivity|].
+  induction w as [|c w IH]; [reflexivity|]. cbn [existsb map] in *.
+  apply orb_false_iff in E as [E1 E2]. apply negb_false_iff, N.eqb_eq in E1. rewrite E1. f_equal. now apply IH.
+Qed.
+
+Lemma normalized_idem w : normalized (normalized w) = normalized w.
+Proof. rewrite !normalized_map, map_map. apply map_ext. intros c. apply norm_char_idem. Qed.
+
+Theorem mut_exact_own_word is_lower lower m k e :
+  wm_wf is_lower lower m -> In (k, e) m -> mut_exact is_lower lower m (e_canon e) = true.
+Proof.
+  intros [ND K] Hin. unfold mut_exact, wm_get_with_chars, word_id.
+  rewrite normalized_idem. fold (word_id is_lower lower (e_canon e)).
+  rewrite <- (K k e Hin). rewrite (proj2 (wm_get_in m k e ND) Hin). apply text_eqb_refl.
+Qed.
